@@ -1,0 +1,21 @@
+//go:build verif
+
+package utils
+
+// Contracts for the deductive verifier in /verif (govc). Comments only; build tag "verif".
+//
+// C03 (sessions): the per-key session entry is deleted only by the release function of the session
+// that stored it, never by StartSession itself - in particular not by a waiter that gives up. Ghost
+// $Deleted: an entry of the active map was deleted.
+//@ extern (*sync.Map).Delete
+//@   effect $Deleted := true
+
+//@ func (*Sessions).StartSession$1
+//@   property C03
+//@   noframe
+//@   effect $Deleted := true
+
+//@ func (*Sessions).StartSession
+//@   property C03
+//@   requires !$Deleted
+//@   ensures !$Deleted
